@@ -38,9 +38,17 @@ func c12Specs(tier string) []*Spec {
 		specs = append(specs, &Spec{ID: "C12", Name: name, Cfg: cfg, Keys: keys, Vals: bs("x"), MaxDepth: depth, MaxMaint: maint,
 			Alphabet: a.Ops, Oracles: []Oracle{oracleReach()}})
 	}
+	addNarrow := func(name string, cfg Cfg, keys [][]byte, a Alpha, depth int) {
+		specs = append(specs, &Spec{Weight: 8, ID: "C12", Name: name, Cfg: cfg, Keys: keys, Vals: bs("x", "y"), MaxDepth: depth, MaxMaint: 1,
+			Alphabet: a.Ops, Oracles: []Oracle{oracleReach()}})
+	}
+	rewrite := Alpha{Writes: true, NoRemove: true, Save: true, LVFO: true, Hold: true, MaxVersions: 2}
+	resave := Alpha{Writes: true, Save: true, LoadVersion: true, MaxVersions: 3}
 	k3 := bs("a", "ab", "b")
 	k2 := bs("a", "b")
 	if tier == "quick" {
+		addNarrow("rewrite/2keys/d8", defaultCfg, k2, rewrite, 8)
+		addNarrow("resave/1key/d9", defaultCfg, bs("a"), resave, 9)
 		add("default/3keys/d7", defaultCfg, k3, 7, 3)
 		add("default/2keys/d8", defaultCfg, k2, 8, 3)
 		add("nofast/3keys/d6", Cfg{Fast: false}, k3, 6, 3)
@@ -49,6 +57,8 @@ func c12Specs(tier string) []*Spec {
 		add("cache1000/3keys/d6", Cfg{Fast: true, Cache: 1000}, k3, 6, 3)
 		return specs
 	}
+	addNarrow("rewrite/2keys/d10", defaultCfg, k2, rewrite, 10)
+	addNarrow("resave/1key/d11", defaultCfg, bs("a"), resave, 11)
 	add("default/3keys/d8", defaultCfg, k3, 8, 3)
 	add("default/2keys/d9", defaultCfg, k2, 9, 3)
 	add("nofast/3keys/d7", Cfg{Fast: false}, k3, 7, 3)
